@@ -1274,7 +1274,11 @@ class Deme:
             # Deme doesn't exist.
             return 0
 
-        if math.isclose(time, epoch.end_time) or epoch.size_function == "constant":
+        if (
+            math.isclose(time, epoch.end_time)
+            or epoch.size_function == "constant"
+            or epoch.start_size == epoch.end_size
+        ):
             N = epoch.end_size
         elif epoch.size_function == "exponential":
             dt = (epoch.start_time - time) / epoch.time_span
